@@ -188,6 +188,17 @@ def hbuff_prologue():
                 if (name != "none" and not has) or (name == "none" and not none):
                     bad.append(dict(add_suffix=suffix, filter=filt, init=init, deps=deps, width32=w32))
             res.append(ob("hbuff-prologue/%s, independent of the other options" % name, not bad, "same for all 32 settings", bad[:3] or "same"))
+        # through the real parser: HBUFF in any position gives the prologue, anything else does not - the other buffer statements, the
+        # runtime's own names used as user text, a user variable PID
+        from coco.b09.compiler import convert
+        real = {"HBUFF": ("10 HBUFF 1,100", True), "HBUFF in an ELSE arm": ("10 IF A=1 THEN B=1 ELSE IF A=2 THEN HBUFF 2,10", True), "HBUFF after a colon": ("10 A=1:HBUFF 1,10", True),
+                "HGET and HPUT only": ("10 HGET(0,0)-(1,1),1:HPUT(0,0)-(1,1),1,PSET", False), "HGET only in an IF arm": ("10 IF A=1 THEN HGET(0,0)-(1,1),1", False),
+                "user variable PID": ("10 PID=1:PI=PID+1:PRINT PID", False), "HBUFF in a string": ('10 PRINT "HBUFF 1,2":REM HBUFF 1,2', False), "HBUFF in DATA": ("10 DATA HBUFF 1,2", False)}
+        for name, (src, want) in real.items():
+            for kw in (dict(), dict(initialize_vars=True, filter_unused_linenum=True)):
+                text = convert(src + "\n", add_standard_prefix=True, **kw)
+                n = (len(re.findall(r"(?mi)^\s*dim pid: integer", text)), len(re.findall(r"(?i)RUN _ecb_init_hbuff\(pid\)", text)))
+                res.append(ob("hbuff-prologue/source/%s%s" % (name, ",init+filter" if kw else ""), n == ((1, 1) if want else (0, 0)), "prologue lines %s" % ("once each" if want else "absent"), n, src))
         # ... and of what was converted before: a program without HBUFF gets no prologue after one with HBUFF
         opaque.reset()
         convert_ast(progs["top-level"], add_standard_prefix=True)
@@ -288,4 +299,6 @@ def obligations():
     from tx.p_c05 import share, temp_sequences
     from tx.p_c14 import rule_kinds
     return (statement_rows() + hbuff_prologue() + record_types() + device_functions_per_occurrence() + parser_builds_a_tree() + poke_addresses()
-            + share("temporaries/", temp_sequences()) + share("kind/", rule_kinds()) + share("operand-values/", __import__("tx.p_c01", fromlist=["x"]).hex_values()))
+            + share("temporaries/", temp_sequences()) + share("kind/", rule_kinds()) + share("operand-values/", __import__("tx.p_c01", fromlist=["x"]).hex_values())
+            # the handle `pid` the prologue declares is the runtime's: the initialiser leaves it alone (shared with C09)
+            + share("init/", __import__("tx.p_c09", fromlist=["x"]).initializer_positions() + __import__("tx.p_c09", fromlist=["x"]).initializer_skips_generated()))
